@@ -24,7 +24,7 @@ MANIFEST = {
 POOL1 = ['', 'a', 'b', '{}']
 POOL2 = ['', 'a', 'b']
 BOUNDS = {'quick': [(4, 1), (3, 2)], 'thorough': [(5, 1), (4, 2)]}
-MISS = [',{}', 'a']
+MISS = [',{}', 'a', 'a,a', ',{},']      # the symbol SET is given as a comma-separated list: a symbol may be named more than once
 
 INFO = {
     'engine': 'symx + z3 (inputs concretised by decisions) + real pandas',
@@ -126,8 +126,23 @@ def oracle(rows, cols, cuts, thr, miss):
     return exp
 
 
-def compare(got, exp, hist_exact=True):
+def bounded_hist(vals, bound):
+    """the bounded exact counter fed row by row (C15): counts until `bound` distinct values are tracked, then stays as it is - a
+    function of the row sequence alone, whatever the split into mini-batches"""
+    t = Counter()
+    for v in vals:
+        if len(t) < bound:
+            t[v] += 1
+    return dict(t)
+
+
+def compare(got, exp, hist_exact=True, rows=None, cols=None, hist_bound=None):
     probs = []
+    if not hist_exact and rows is not None:
+        for j, c in enumerate(cols):
+            e = bounded_hist([r[j] for r in rows], hist_bound)
+            if got['hist'][c] != e:
+                probs.append(f'value counts of {c} under the bound {hist_bound}: {got["hist"][c]} vs row-by-row recomputation {e} (must not depend on the split)')
     for c in exp['card']:
         if any(abs(a - b) > 1e-9 for a, b in zip(got['cov'][c], exp['cov'][c])) or len(got['cov'][c]) != len(exp['cov'][c]):
             probs.append(f'coverage of {c}: {got["cov"][c]} vs exact {exp["cov"][c]}')
@@ -190,8 +205,8 @@ def run_job(job):
         w = {'cond': 'stats', 'rows': rows, 'cols': cols, 'cuts': cuts, 'thr': thr, 'miss': miss, 'hist_bound': hb}
         try:
             got = run_batches(cr, cu, rows, cols, cuts, thr, miss, hist_bound=hb)
-            # with a saturating histogram bound the histogram is truncated by design (C15); every other statistic must stay exact
-            probs = compare(got, oracle(rows, cols, cuts, thr, miss), hist_exact=(hb == 30000))
+            # with a saturating histogram bound the histogram is truncated by design (C15) but still a function of the row sequence; every other statistic must stay exact
+            probs = compare(got, oracle(rows, cols, cuts, thr, miss), hist_exact=(hb == 30000), rows=rows, cols=cols, hist_bound=hb)
         except Exception as e:  # the real code raised
             probs = [f'{type(e).__name__}: {e}']
         if probs or out.twin:
@@ -213,7 +228,7 @@ def replay(w):
         tb = traceback.extract_tb(e.__traceback__)[-1]
         return {'reproduced': True, 'signature': f'C13:exception:{type(e).__name__}:{tb.name}',
                 'what': f'rows {rows} cut {cuts}: {type(e).__name__}: {e} (in {tb.name}, {os.path.basename(tb.filename)}:{tb.lineno})'}
-    probs = compare(got, oracle(rows, cols, cuts, thr, miss), hist_exact=(hb == 30000))
+    probs = compare(got, oracle(rows, cols, cuts, thr, miss), hist_exact=(hb == 30000), rows=rows, cols=cols, hist_bound=hb)
     if probs:
         kind = 'rare-report' if any('rare' in p for p in probs) and len(probs) == sum('rare' in p for p in probs) else 'stats'
         if kind == 'rare-report':
